@@ -705,8 +705,10 @@ func (f *mutableFeatureIterator) FeatureID() b6.FeatureID {
 
 func (m *MutableOverlayWorld) FindFeatures(q b6.Query) b6.Features {
 	overlay := b6.NewSearchFeatureIterator(q.Compile(m.index, m), m.index)
+	// The base can't see features that only exist in this overlay
+	base := m.base.FindFeatures(b6.ResolveFeatureQueries(q, m))
 	return &mutableFeatureIterator{
-		i:     newOverlayFeatures(m.tags.WrapFeatures(m.base.FindFeatures(q)), overlay, m.features),
+		i:     newOverlayFeatures(m.tags.WrapFeatures(base), overlay, m.features),
 		epoch: m.epoch,
 		w:     m,
 	}
